@@ -27,6 +27,7 @@ type shape struct {
 	nested    bool
 	payload   int // 0 none, 1 small, 2 large
 	typ       string
+	ext       bool // attributes of another namespace named id and from (opaque to the session: neither completed nor dropped nor taken for the stanza's own)
 }
 
 var names = []string{"message", "iq", "presence", "foo"}
@@ -50,6 +51,9 @@ func (sh shape) attrs() []xml.Attr {
 		a = append(a, xml.Attr{Name: xml.Name{Local: "from"}, Value: "a@example.org/x"})
 	}
 	a = append(a, xml.Attr{Name: xml.Name{Local: "to"}, Value: "b@example.org"})
+	if sh.ext {
+		a = append(a, xml.Attr{Name: xml.Name{Space: "urn:ext", Local: "id"}, Value: "ext-id"}, xml.Attr{Name: xml.Name{Space: "urn:ext", Local: "from"}, Value: ""})
+	}
 	return a
 }
 
@@ -126,6 +130,10 @@ func (sh shape) expected(streamNS string, s2s bool, selfFrom string, idByCaller 
 	var attrs []xml.Attr
 	haveID, haveFrom := false, false
 	for _, a := range sh.attrs() {
+		if a.Name.Space != "" {
+			attrs = append(attrs, a)
+			continue
+		}
 		if isStanza && (a.Name.Local == "id" || a.Name.Local == "from") && a.Value == "" {
 			continue
 		}
@@ -457,6 +465,11 @@ func shapesBodyN(c *nd.Ctx, calls int) (res nd.Result) {
 		sh.xmlnsAttr = c.Choose(2, "xmlns-attribute") == 1
 		sh.nested = c.Choose(2, "nested-stanza-named-child") == 1
 		sh.payload = c.Choose(3, "payload")
+		sh.ext = c.Choose(2, "foreign-namespace-attributes-named-id-and-from") == 1
+		headerIsStruct := strings.Contains(form, "struct") || (strings.HasSuffix(form, "Element") && (strings.Contains(form, "IQ") || strings.Contains(form, "Message") || strings.Contains(form, "Presence")))
+		if sh.ext && (headerIsStruct || sh.payload == 2 || sh.nested) {
+			return nd.Result{Skip: true} // struct values have no place for them; size and nesting play no part
+		}
 	} else {
 		sh.payload = 1
 		form1 = seqFirst[c.Choose(len(seqFirst), "first-call-form")]
@@ -495,6 +508,9 @@ func shapesBodyN(c *nd.Ctx, calls int) (res nd.Result) {
 		panic("c05: setup: " + err.Error())
 	}
 	desc := fmt.Sprintf("%s name=%s ns=%q id=%d from=%d xmlns-attr=%v nested=%v payload=%d s2s=%v stream-kind=%d", form, sh.name, sh.ns, sh.id, sh.from, sh.xmlnsAttr, sh.nested, sh.payload, s2s, role)
+	if sh.ext {
+		desc += " +ext:id,ext:from"
+	}
 	var terr error
 	var applicable bool
 	before := rw.Out.Len()
